@@ -31,13 +31,20 @@ Inductive op :=
 | Sort (keymod : Z) (reverse : bool)       (* l.sort(key=..., reverse=...); keymod 0: no key, m > 0: key = item mod m *)
 | Clear
 (* integer-like arguments that are not ints: an object whose only integer behaviour is __index__ (no <, no +).
-   The built-in list converts it with __index__ and proceeds; see F26 in known_findings.d/C05.json *)
+   The built-in list converts it with __index__ and proceeds, and so do insert / pop / *= since the repair of F26
+   (commit 40e8e0f: operator.index first); the ops stay so that a reversal of the repair is caught *)
 | InsertX (i : Z) (v : Z)                 (* l.insert(Idx(i), v) *)
 | PopX (i : Z)                            (* l.pop(Idx(i)) *)
-| ImulX (n : Z).                          (* l *= Idx(n) *)
+| ImulX (n : Z)                           (* l *= Idx(n) *)
+(* an argument that is not iterable (None, 0, False) where an iterable is required: TypeError in the built-in list *)
+| SetSliceN (sl : slice)                  (* l[a:b:c] = None *)
+| ExtendN.                                (* l.extend(None) *)
 
-(* the operations whose integer argument is such an object *)
+(* the operations whose integer argument is such an object ... *)
 Definition xkey (o : op) : bool := match o with InsertX _ _ | PopX _ | ImulX _ => true | _ => false end.
+(* ... and what `operator.index(argument)` makes of them *)
+Definition deX (o : op) : op :=
+  match o with InsertX i v => Insert i v | PopX i => Pop (Some i) | ImulX n => Imul n | _ => o end.
 
 (* what one operation shows: outcome class, contents afterwards, the calls a
    recording notifier received, the value returned (pop) *)
@@ -86,7 +93,7 @@ Section WithValidator.
     end.
 
   (* ---------------- TraitList ---------------- *)
-  Definition tl_step (l : list Z) (o : op) : obs :=
+  Definition tl_core (l : list Z) (o : op) : obs :=
     let len := zlen l in
     match o with
     | SetInt i v =>                                        (* __setitem__, l.315-352, integer key *)
@@ -194,10 +201,15 @@ Section WithValidator.
         let l' := sort (key_leb m) r l in ok l' (if nonempty l then [(I 0, l, l')] else [])
     | Clear =>                                             (* l.367-373 *)
         ok [] (if nonempty l then [(I 0, l, [])] else [])
-    | InsertX _ _ => raise TypeError l                     (* l.402 `if index < 0:` on an object without < *)
-    | PopX _ => raise TypeError l                          (* l.432 `... if index < 0 else index` *)
-    | ImulX _ => raise TypeError l                         (* l.302 `if value < 1:` *)
+    | InsertX _ _ | PopX _ | ImulX _ => raise OtherError l (* never reached: see tl_step *)
+    | SetSliceN sl =>                                      (* l.336 removed items first (ValueError for step 0), then
+                                                              l.338 iterating the value raises TypeError *)
+        match getitem_slice l sl with Raise e => raise e l | Ok _ => raise TypeError l end
+    | ExtendN => raise TypeError l                         (* l.385 *)
     end.
+
+  (* insert / pop / *= begin with operator.index(argument) (l.302, l.403, l.434 after the repair of F26) *)
+  Definition tl_step (l : list Z) (o : op) : obs := tl_core l (deX o).
 
   (* ---------------- TraitListObject ---------------- *)
   (* _validate_length, l.872-902; maxlen = None stands for "no upper bound" *)
@@ -221,13 +233,14 @@ Section WithValidator.
     | Append _ | Insert _ _ => Ok (Some (len + 1))
     | Extend vs | Iadd vs => Ok (Some (len + zlen vs))
     | Imul n => Ok (Some (Z.max 0 (len * n)))
-    | ImulQ _ _ => Ok None                                  (* the guard compares a non-integer: see tlo_step *)
+    | ImulQ _ _ => Ok None                                  (* operator.index(value) raises before the guard *)
     | Pop _ | Remove _ => Ok (Some (Z.max (len - 1) 0))
     | Clear => Ok (Some 0)
     | Reverse | Sort _ _ => Ok None                          (* not overridden *)
     | InsertX _ _ => Ok (Some (len + 1))                    (* l.761: the length is checked first *)
     | PopX _ => Ok (Some (Z.max (len - 1) 0))               (* l.784 *)
-    | ImulX _ => Raise TypeError                            (* l.678: len(self) * value already fails *)
+    | ImulX n => Ok (Some (Z.max 0 (len * n)))              (* operator.index(value) first, then as for an int *)
+    | SetSliceN _ | ExtendN => Raise TypeError              (* l.702 / l.746: list(value) fails first *)
     end.
 
   Definition tlo_step0 (minlen : Z) (maxlen : option Z) (l : list Z) (o : op) : obs :=
@@ -237,15 +250,10 @@ Section WithValidator.
     | Ok None => tl_step l o
     end.
 
-  (* _validate_length(max(0, len(self) * value)) for a non-integer value p/q, q > 0 (l.678):
-     minlen <= max(0, len*p/q) <= maxlen, decided on integers *)
-  Definition qlen_ok (minlen : Z) (maxlen : option Z) (len p q : Z) : bool :=
-    let x := Z.max 0 (len * p) in
-    (minlen * q <=? x) && match maxlen with Some m => x <=? m * q | None => true end.
-
+  (* `*=` by a float / Fraction / Decimal: operator.index(value) raises TypeError before the length is looked at *)
   Definition tlo_step (minlen : Z) (maxlen : option Z) (l : list Z) (o : op) : obs :=
     match o with
-    | ImulQ p q => if qlen_ok minlen maxlen (zlen l) p q then raise TypeError l else raise TraitError l
+    | ImulQ p q => raise TypeError l
     | _ => tlo_step0 minlen maxlen l o
     end.
 
